@@ -24,24 +24,24 @@ CLAIMED = {
   "Lean 4 proof over a regenerated table (decide +kernel on the table, induction for the general lemmas) + correspondence",
   "DESIGN.md section 7, C12"),
  "C05": (
-  "Lean 4 theorems C05_*: the reset rule (C05_reset_rule: a resettable part is reset iff some part to its left changed, for every field list), the increment rules (C05_incr_numeric), BUILD strictly increasing and TAG carried (via C17), final-has-no-NUM, --pin-date keeps parts incl. zero values, calendar never backwards (guard), optional groups omitted exactly when all parts zero (C05_optional_omission, all nestings) — about the executable model of v2version incr/_incr_numeric/_reset_rollover_fields/_format_segment_tree over the GENERATED tables. Tied to the code by ops parse/format/pattern_fields/incr and judged on the implementation by an independent reference reading of the README rules that predicts the exact new version string (also through `bumpver test`).",
+  "Lean 4 theorems C05_*: the reset rule (C05_reset_rule: a resettable part is reset iff some part to its left changed, for every field list), the increment rules (C05_incr_numeric), BUILD strictly increasing and TAG carried (via C17), final-has-no-NUM, --pin-date keeps parts incl. zero values, calendar never backwards (guard), optional groups omitted exactly when all parts zero (C05_optional_omission, all nestings) — about the executable model of v2version incr/_incr_numeric/_reset_rollover_fields/_format_segment_tree over the GENERATED tables. Tied to the code by ops parse/format/pattern_fields/incr and judged on the implementation by an independent reference reading of the README rules that predicts the exact new version string (also through `bumpver test`). SOURCE-LEVEL TIE: v2version._is_cal_gt and _ver_to_cal_info are translated from the Python AST to Lean on every run (harness/translate_funcs.py -> Gen/F_*.lean) and PROVED equal to the hand model (Proofs/Tie_*.lean, obligations of this check): an edited comparison, dropped conjunct, reordered elif or truthiness-for-None change in that function breaks the proof deterministically; a renamed local or commuted conjunct does not.",
   "Trusted: Lean kernel + standard axioms; translator (tables, formatter kinds); correspondence; Python re / datetime modelled. Week 53 under WW/UU parts is known finding F-C02-week53.",
-  "Lean 4 proof (induction over field lists and segment trees) + correspondence + reference-implementation oracle",
+  "Lean 4 proof (induction over field lists and segment trees) + correspondence + reference-implementation oracle + function-level translation tie",
   "DESIGN.md section 7, C05"),
  "C10": (
-  "Lean 4 theorems C10_* (14) about the executable model BV.plan of `bumpver update`'s step sequencing for ALL configurations, flag combinations, environments, file lists and EVERY failure position: rejection of contradictory flags first, documented order, gating of commit/tag/push/hooks, --dry purity, --no-fetch, dirty blocks before rewrite, stop at first failure, hook failure stops, hook environment, completeness on exit 0. Tied to the code by op plan: real `bumpver update` runs with fake git/hg on PATH (argv log, hook markers with both env vars, rewrite position probe) at random lattice points with failure injected at each command index.",
+  "Lean 4 theorems C10_* (14) about the executable model BV.plan of `bumpver update`'s step sequencing for ALL configurations, flag combinations, environments, file lists and EVERY failure position: rejection of contradictory flags first, documented order, gating of commit/tag/push/hooks, --dry purity, --no-fetch, dirty blocks before rewrite, stop at first failure, hook failure stops, hook environment, completeness on exit 0. Tied to the code by op plan: real `bumpver update` runs with fake git/hg on PATH (argv log, hook markers with both env vars, rewrite position probe) at random lattice points with failure injected at each command index. SOURCE-LEVEL TIE: cli._parse_vcs_options is (through an explicit abstraction of Config to the model's PlanCfg; the two inputs click rejects — empty hook path, unknown scope — are explicit hypotheses) translated from the Python AST to Lean on every run (harness/translate_funcs.py -> Gen/F_*.lean) and PROVED equal to the hand model (Proofs/Tie_*.lean, obligations of this check): an edited comparison, dropped conjunct, reordered elif or truthiness-for-None change in that function breaks the proof deterministically; a renamed local or commuted conjunct does not.",
   "Trusted: Lean kernel + standard axioms; correspondence sampling of the lattice; hg binary absent (fake executable); click option parsing exercised, not modelled.",
-  "Lean 4 proof (phase invariants over an effect trace) + correspondence with fake VCS executables",
+  "Lean 4 proof (phase invariants over an effect trace) + correspondence with fake VCS executables + function-level translation tie",
   "DESIGN.md section 7, C10"),
  "C14": (
-  "Lean 4 theorems C14_*: calKey of every coherent calendar shape (22 shapes, padded/unpadded irrelevant for the key) is monotone in the date for ALL ordinals (C14_step, C14_fields_monotone, C14_dates_monotone; no year bound), is_valid_week_pattern rejects exactly the Y+V / G+W|U pairings (C14_rejected_iff) and each rejected pairing is non-monotone (witness dates), the future guard is the lexicographic comparison (C14_guard*). Tied to the code by op calinfo (thorough: every date 1000-01-01..9999-12-31) and weekpat; implementation oracle renders consecutive days through format_version and orders them with `packaging`.",
+  "Lean 4 theorems C14_*: calKey of every coherent calendar shape (22 shapes, padded/unpadded irrelevant for the key) is monotone in the date for ALL ordinals (C14_step, C14_fields_monotone, C14_dates_monotone; no year bound), is_valid_week_pattern rejects exactly the Y+V / G+W|U pairings (C14_rejected_iff) and each rejected pairing is non-monotone (witness dates), the future guard is the lexicographic comparison (C14_guard*). Tied to the code by op calinfo (thorough: every date 1000-01-01..9999-12-31) and weekpat; implementation oracle renders consecutive days through format_version and orders them with `packaging`. SOURCE-LEVEL TIE: v2version._is_cal_gt, is_valid_week_pattern and version.quarter_from_month are translated from the Python AST to Lean on every run (harness/translate_funcs.py -> Gen/F_*.lean) and PROVED equal to the hand model (Proofs/Tie_*.lean, obligations of this check): an edited comparison, dropped conjunct, reordered elif or truthiness-for-None change in that function breaks the proof deterministically; a renamed local or commuted conjunct does not.",
   "Trusted: Lean kernel + standard axioms; datetime/strftime are modelled (tied by the all-dates correspondence); F-C14-doy366 is a known finding (hand-written day 366 of a common year).",
-  "Lean 4 proof (omega on a 400/100/4/1 year decomposition + decide over month tables) + exhaustive correspondence",
+  "Lean 4 proof (omega on a 400/100/4/1 year decomposition + decide over month tables) + exhaustive correspondence + function-level translation tie",
   "DESIGN.md section 7, C14"),
  "C16": (
-  "Lean 4 theorems C16_* (23): cmpKey/verLe is a total preorder on ALL parsed values with equality exactly key equality; agreement with an independently shaped PEP 440 spec (zero-padding vs stripping, phase ranks vs ±Infinity) for all well-formed versions and C16_parse_wf; canonical printing round trip incl. local segment, injectivity, idempotence; every legacy value below every PEP 440 value. Tied to the vendored setuptools_v65_version by ops pep_parse/pep_str/pep_cmp; implementation oracle checks the order laws and agreement with `packaging` 26.3.",
+  "Lean 4 theorems C16_* (23): cmpKey/verLe is a total preorder on ALL parsed values with equality exactly key equality; agreement with an independently shaped PEP 440 spec (zero-padding vs stripping, phase ranks vs ±Infinity) for all well-formed versions and C16_parse_wf; canonical printing round trip incl. local segment, injectivity, idempotence; every legacy value below every PEP 440 value. Tied to the vendored setuptools_v65_version by ops pep_parse/pep_str/pep_cmp; implementation oracle checks the order laws and agreement with `packaging` 26.3. SOURCE-LEVEL TIE: setuptools_v65_version._parse_letter_version is (for every word of the model's word tables in every letter case, the implicit 0 and the implicit post release) translated from the Python AST to Lean on every run (harness/translate_funcs.py -> Gen/F_*.lean) and PROVED equal to the hand model (Proofs/Tie_*.lean, obligations of this check): an edited comparison, dropped conjunct, reordered elif or truthiness-for-None change in that function breaks the proof deterministically; a renamed local or commuted conjunct does not.",
   "Trusted: Lean kernel + standard axioms; the hand-written recogniser of VERSION_PATTERN is tied to the regex by correspondence; ASCII input only (non-ASCII answers unsupported).",
-  "Lean 4 proof (lawful comparison, spec refinement, parser round trip) + correspondence",
+  "Lean 4 proof (lawful comparison, spec refinement, parser round trip) + correspondence + function-level translation tie",
   "DESIGN.md section 7, C16"),
  "C01": (
   "Lean 4 theorems C01_*: the gate accepts only a candidate whose first regex match consumes the whole string (C01_parse_is_full_match) and that is strictly greater in the PEP 440 order of C16 (C01_gate_sound, C01_not_greater_rejected incl. PEP 440-equal respellings); `bumpver test` and the version part of `bumpver update` announce only such versions, relative to the start version of C09 (C01_test_sound, C01_update_sound); every other outcome is a non-zero exit and never reaches the rewrite step (C01_otherwise_nonzero, C01_rejected_no_rewrite) — for ALL patterns, versions, flag sets, dates and --set-version targets. Tied to the code by op cli_test vs `bumpver test` through click's CliRunner; implementation oracle: reference-regex full match + packaging/vendored order over flags x dates x derived --set-version targets, legacy composites with trailing junk, update dry/real on generated projects.",
@@ -49,14 +49,14 @@ CLAIMED = {
   "Lean 4 proof (decision logic over the gate) + correspondence + implementation oracle",
   "DESIGN.md section 7, C01"),
  "C03": (
-  "Lean 4 theorems C03_*: surviving matches are pairwise disjoint and in bounds, success means every configured pattern was found, and C03_every_occurrence: after a successful rewrite EVERY surviving match shows the new version rendered through its own pattern at its shifted position — also several different patterns on one line — for ALL line lists and pattern lists; `{version}` normalises to the version pattern. Tied by op rewrite_content vs v2rewrite.rfd_from_content; implementation oracle: real `bumpver update` on generated projects (1..5 files x 1..4 patterns, shared lines, four line-ending regimes), every file compared byte for byte with the layout re-materialised for the new version by an independent renderer.",
+  "Lean 4 theorems C03_*: surviving matches are pairwise disjoint and in bounds, success means every configured pattern was found, and C03_every_occurrence: after a successful rewrite EVERY surviving match shows the new version rendered through its own pattern at its shifted position — also several different patterns on one line — for ALL line lists and pattern lists; `{version}` normalises to the version pattern. Tied by op rewrite_content vs v2rewrite.rfd_from_content; implementation oracle: real `bumpver update` on generated projects (1..5 files x 1..4 patterns, shared lines, four line-ending regimes), every file compared byte for byte with the layout re-materialised for the new version by an independent renderer. SOURCE-LEVEL TIE: parse._has_overlap is translated from the Python AST to Lean on every run (harness/translate_funcs.py -> Gen/F_*.lean) and PROVED equal to the hand model (Proofs/Tie_*.lean, obligations of this check): an edited comparison, dropped conjunct, reordered elif or truthiness-for-None change in that function breaks the proof deterministically; a renamed local or commuted conjunct does not.",
   "Trusted: Lean kernel + standard axioms; regex fragment modelled; the independent renderer (harness/refimpl.py + packaging for the PEP 440 form) judges the implementation. Patterns whose occurrences overlap another configured pattern's text are outside the property's quantifier (generator excludes them).",
-  "Lean 4 proof (splice bookkeeping over sorted disjoint spans) + correspondence + independent re-materialisation",
+  "Lean 4 proof (splice bookkeeping over sorted disjoint spans) + correspondence + independent re-materialisation + function-level translation tie",
   "DESIGN.md section 7, C03"),
  "C04": (
-  "Lean 4 theorems C04_*: join(sep, split(sep, s)) = s for EVERY content and non-empty separator; detected separator is CRLF/CR/LF; line count, unmatched lines and the text before/after a span are preserved; content identity when nothing matches; files not named in the configuration are never written. PARTIAL: that the bytes on disk are the UTF-8 encoding with untranslated newlines depends on open(newline='', encoding='utf-8'), which no model exhibits — exercised by real update runs in-process and as subprocesses under LC_ALL=C with UTF-8 mode and locale coercion off, bytes compared with the independently re-materialised layout.",
+  "Lean 4 theorems C04_*: join(sep, split(sep, s)) = s for EVERY content and non-empty separator; detected separator is CRLF/CR/LF; line count, unmatched lines and the text before/after a span are preserved; content identity when nothing matches; files not named in the configuration are never written. PARTIAL: that the bytes on disk are the UTF-8 encoding with untranslated newlines depends on open(newline='', encoding='utf-8'), which no model exhibits — exercised by real update runs in-process and as subprocesses under LC_ALL=C with UTF-8 mode and locale coercion off, bytes compared with the independently re-materialised layout. SOURCE-LEVEL TIE: parse._has_overlap and rewrite.detect_line_sep are translated from the Python AST to Lean on every run (harness/translate_funcs.py -> Gen/F_*.lean) and PROVED equal to the hand model (Proofs/Tie_*.lean, obligations of this check): an edited comparison, dropped conjunct, reordered elif or truthiness-for-None change in that function breaks the proof deterministically; a renamed local or commuted conjunct does not.",
   "Trusted: Lean kernel + standard axioms; Python's codec/newline handling and the OS (exercised, not modelled). Non-ASCII file NAMES under an ASCII locale are the OS's business and excluded from the C-locale runs.",
-  "Lean 4 proof (structural induction on List Char) + byte-level runs under two locales",
+  "Lean 4 proof (structural induction on List Char) + byte-level runs under two locales + function-level translation tie",
   "DESIGN.md section 7, C04"),
  "C06": (
   "Lean 4 theorems C06_*: rewriteFiles over an abstract file system is all-or-nothing (C06_all_or_nothing: any error leaves every file as it was), fails exactly when a configured file is missing or fails to validate (C06_error_iff), a pattern without surviving match fails its file, success writes only validated contents, and nothing mutating happens after a failed rewrite phase (via the plan model); negative witness for the repaired lazy loop. Tied by op rewrite_files on real temp files; implementation oracle: fault enumeration — every configured file removed, blanked, every (file, pattern) occurrence removed — with and without fake git, dry before real.",
@@ -79,9 +79,9 @@ CLAIMED = {
   "Lean 4 proof (applier soundness/completeness, path equivalence) + per-instance translation validation of difflib",
   "DESIGN.md section 7, C13"),
  "C15": (
-  "PARTIAL. Lean 4 theorems C15_* over the regenerated tables: every part the PEP 440 conversion substitutes shows the same field unpadded, every padded part is covered, the tag tables are mutually consistent, the short tags are exactly the PEP 440 segments of C16's parser, a final tail is omitted, and the conversion of every README example pattern is the documented one (kernel-evaluated string surgery); negative witness for odd shapes. The end-to-end statement (same version, accepted by the derived pattern, equals the PEP440 line, normal form) for ALL PEP 440-shaped patterns and values is validated, not proved: ops to_pep440_pattern/normalize and an oracle with `packaging` as independent PEP 440 authority.",
-  "Trusted: Lean kernel + standard axioms; translator; the end-to-end part rests on the correspondence and the packaging-based oracle (a proof needs the pattern-level composition of C02). Patterns outside the README shapes: known finding F-C15-odd-shapes.",
-  "Lean 4 proof of the table-level facts + kernel evaluation per README pattern; end-to-end by correspondence and packaging oracle",
+  "PARTIAL. Lean 4 theorems C15_* (21). Table level, over the regenerated tables: every part the PEP 440 conversion substitutes shows the same field unpadded, every padded part is covered, the tag tables are mutually consistent, the short tags are exactly the PEP 440 segments of C16's parser, a final tail is omitted, the conversion of every README example is the documented one. TREE level (Model/PepTree.lean mirrors _convert_to_pep440 step by step on pattern trees): C15_derived_accepts_own_rendering / C15_derived_accepts_of_original — the text written for {pep440_version} is matched IN FULL by the derived search pattern and reads back with every part equal, for every pattern whose derived tree is well-formed, every record in the domain (pepReady: non-zero BUILD under BLD, pytag the image of tag, final has no number) and any valid date; C15_vok_transfer* carry the domain from the version pattern to the derived one (a mandatory TAG under a final release is excluded with a proved witness: that version string is not PEP 440 anyway); C15_normal_form_parts — structurally: no v prefix, every numeric component after the first is natToStr of its field (no leading zero), the tag is one of a/b/rc/post/dev directly followed by NUM; C15_readme_tree_tie / _derived_wf / _derived_normal: all of it applies to every README pattern (kernel-evaluated). Still validated, not proved: that the rendered text denotes the SAME PEP 440 version as the version string (needs C16's parser on rendered strings) — oracle with `packaging`; and tree = string surgery beyond the README patterns — driver op pep_tie per generated pattern (73 % of generated (pattern, record) pairs inside the theorems' domain).",
+  "Trusted: Lean kernel + standard axioms; translator; 'denotes the same PEP 440 version' rests on the correspondence and the packaging-based oracle; the tokenizer tie tree <-> string surgery is checked per pattern. Patterns outside the README shapes: known finding F-C15-odd-shapes.",
+  "Lean 4 proof: table-level facts, tree-level conversion with acceptance / read-back / normal-form theorems (structural induction, reuse of the C02 composition), kernel evaluation per README pattern; version equality by correspondence and packaging oracle",
   "DESIGN.md section 7, C15"),
  "C08": (
   "Lean 4 theorems C08_* about the version state (config value, tag list) under ANY sequence of update invocations of ANY length: consistency (config valid, no tag above it) is an invariant of every invocation, successful steps strictly increase (C16 order), failed ones change nothing, `show` agrees with the config, the newest tag is the config version when tagging, a further update is always possible — by induction over the operation list, built on C09's startVersion and C01's gate; the file side is C03/C06 and the commit/tag side C10. PARTIAL: real git is exercised, not modelled: seeded histories (random flags, non-decreasing dates, failing invocations, --no-commit/--no-tag-commit, unrelated commits, branch switches) run against real git; after each step config, every occurrence (re-materialised from an independently tracked reference state), `show`, tags, commit count and commit contents are checked, and the model's hstep is run on the same history (op history).",
